@@ -373,6 +373,7 @@ class MultiKeyDict(dict):
     # We want only tuples
     if not isinstance(key, tuple):
       key = (key,)
+    hash(key) # An unhashable key is refused before anything is changed
 
     # Finds the full new tuple keys
     if value in self._inv_dict:
